@@ -57,7 +57,6 @@ struct InMemory {
 }
 
 struct Shared {
-    worker_tp: ThreadPool,
     sync_tp: ThreadPool,
     in_memory: Mutex<InMemory>,
     seglog: Mutex<SegmentedLog>,
@@ -92,8 +91,6 @@ impl InMemory {
         self.log.len()
     }
 }
-
-const ROLLBACK_TP_SIZE: usize = 2;
 
 /// This structure manages the rollback log. Modifications to the rollback log are made using
 /// [`ReverseDeltaBuilder`] supplied to [`Rollback::commit`].
@@ -134,7 +131,6 @@ impl Rollback {
             seglog
         };
         let shared = Arc::new(Shared {
-            worker_tp: ThreadPool::with_name("rollback-worker".into(), ROLLBACK_TP_SIZE),
             sync_tp: ThreadPool::with_name("rollback-sync".into(), 1),
             in_memory: Mutex::new(in_memory),
             seglog: Mutex::new(seglog),
@@ -156,7 +152,7 @@ impl Rollback {
     fn delta_builder_inner(&self, store: impl LoadValueAsync) -> ReverseDeltaBuilder {
         let priors = Arc::new(DashMap::new());
         let (command_tx, worker_result_rx) =
-            reverse_delta_worker::start(store, &self.shared.worker_tp, priors.clone());
+            reverse_delta_worker::start(store, priors.clone());
 
         ReverseDeltaBuilder {
             command_tx,
